@@ -33,7 +33,14 @@ def _plan(draw, max_len):
             vals = [None] * n
     else:
         vals = draw(gen.values(kind, n))
-    return {"kind": kind, "vals": vals}
+    plan = {"kind": kind, "vals": vals}
+    if n and kind not in ("u", "y", "i", "b") and draw(st.integers(0, 2)) == 0:
+        # history: query, edit cells of the same vector in place, query again
+        v = draw(gen.value(kind, "pool")) if kind != "oi" else draw(st.sampled_from([None, 0, 5, 9]))
+        if kind == "s" and draw(st.booleans()):
+            v = max(vals, key=len) + draw(st.sampled_from(["z", "zz", "q" * 50]))
+        plan["edits"] = [[draw(st.integers(0, n - 1)), v]]
+    return plan
 
 
 def strategy(tier):
@@ -59,8 +66,30 @@ def _multiset(cs):
 
 
 def check(plan, ctx):
-    kind, vals = plan["kind"], plan["vals"]
+    kind, vals = plan["kind"], list(plan["vals"])
     v = build.vec(kind, vals)
+    _check_vec(v, kind, vals, ctx)
+    if plan.get("edits"):
+        for row, val in plan["edits"]:
+            vals[row] = val
+            v[row] = build.np_array(kind, [val])[0]
+        ctx.cls("queried_again_after_in_place_edit")
+        _PHASE[0] = "after an in-place edit of the same vector: "
+        try:
+            _check_vec(v, kind, vals, ctx)
+        finally:
+            _PHASE[0] = ""
+
+
+_PHASE = [""]
+
+
+class Violation(Violation):                    # prefixes the phase to every message of this module
+    def __init__(self, what, **detail):
+        super().__init__(_PHASE[0] + what, **detail)
+
+
+def _check_vec(v, kind, vals, ctx):
     before = build.snap_array(v)
     cs = [build.pcell(kind, x) for x in vals]
     n = len(cs)
